@@ -28,6 +28,27 @@ def check_anylayout(ctx, rep, tier):
     arms = 0
     noted = set()
     per_wrapper_variants = {}
+    _tabs = {}
+
+    def behavioural(wname, wpath, tag, v, inner_path):
+        """True when the wrapper, with `self` fixed to variant v and nothing kept opaque, has the same dense table as the wrapped
+        layout; a short description of the difference otherwise; None when it cannot be decided."""
+        from .extract import extract_layout
+        try:
+            if inner_path not in _tabs:
+                _tabs[inner_path] = extract_layout(ctx, inner_path, inner_path)
+            key_ = (wpath, v)
+            if key_ not in _tabs:
+                _tabs[key_] = extract_layout(ctx, '%s#%d' % (wname, v), wpath, arg_doms={tag: [v]})
+            a_, b_ = _tabs[key_].out, _tabs[inner_path].out
+            if len(a_) != len(b_):
+                return None
+            diff = [i for i in range(len(a_)) if a_[i] != b_[i]]
+            if not diff:
+                return True
+            return '%d of %d cells differ from the wrapped layout' % (len(diff), len(a_))
+        except Undecided as u:
+            return None
     for name, ty, path in wrappers:
         by_ref = ty['k'] == 'ref'
         eng = Engine(ctx.prog, opaque=set(concrete))
@@ -102,14 +123,26 @@ def check_anylayout(ctx, rep, tier):
                 if vname != pty.split('::')[-1]:
                     problems.append('variant %s wraps type %s (naming contract)' % (vname, pty.split('::')[-1]))
                 if problems:
-                    rep.ob('delegation arms', 1, 0)
                     narrowed = [n for n in ('keycode', 'handle_ctrl') if len(lf.doms[n]) != len(eng.full_doms[n])]
                     extra = ''
                     if narrowed:
                         extra = ' [for inputs %s]' % ', '.join(
                             '%s in {%s}' % (n, ','.join((ctx.keycodes[x] if n == 'keycode' else str(x)) for x in sorted(lf.doms[n])[:6]) + ('...' if len(lf.doms[n]) > 6 else ''))
                             for n in narrowed)
-                    rep.finding('%s %s' % (key, problems[0].split(':')[0][:80]), '; '.join(problems) + extra + '; ' + leaf_where(lf))
+                    # the structural rule is a proxy: before reporting, decide the arm behaviourally - the dense table of the wrapper
+                    # with `self` fixed to this variant (wrapped layout inlined) against the wrapped layout's own table
+                    verdict = behavioural(name, path, tag, v, want_callee)
+                    if verdict is True:
+                        rep.ob('delegation arms', 1)
+                        if (name, v) not in seen:
+                            arms += 1
+                        seen.add((name, v))
+                        if (name, vname, 'beh') not in noted:
+                            noted.add((name, vname, 'beh'))
+                            rep.note('%s: not a plain delegation (%s) but its table equals the wrapped layout\'s in all cells' % (key, problems[0][:80]))
+                        continue
+                    rep.ob('delegation arms', 1, 0)
+                    rep.finding('%s %s' % (key, problems[0].split(':')[0][:80]), '; '.join(problems) + extra + ('; tables compared: %s' % verdict if verdict else '') + '; ' + leaf_where(lf))
                 else:
                     rep.ob('delegation arms', 1)
                     if (name, v) not in seen:
@@ -177,11 +210,22 @@ def check_keyboard(ctx, rep, tier):
         rep.analysed[name] = {'fn': f['path'], 'path_classes': len(leaves), 'engine': dict(eng.stats)}
         return f, eng, leaves, init
 
+    # observer-only fields of a stage (frame / error counters with getters: section 11) are not part of what the stage *is*: the glue
+    # may feed them (`self.ps2_decoder.record(checked)` in a `Keyboard::add_word` that counts frames - refactors/FC08-p2)
+    from .extract import observer_fields
+    from .rules_event import KNOWN_API
+    obs = {i_ps2: observer_fields(ctx, 'Ps2Decoder', KNOWN_API), i_ed: observer_fields(ctx, 'EventDecoder', KNOWN_API)}
+
+    def norm(i, v):
+        if v is not None and v[0] == 'adt' and obs.get(i):
+            return v[:3] + (tuple(('c', 0, 'observer') if k in obs[i] else x for k, x in enumerate(v[3])),)
+        return v
+
     def untouched(eng, lf, init, fields, name, what):
         fin = lf.cells[('H', 'self')]
         ini = eng.deep(init, _St(lf.doms))
         for i in fields:
-            if fin[3][i] != ini[3][i]:
+            if norm(i, fin[3][i]) != norm(i, ini[3][i]):
                 rep.ob('isolation', 1, 0)
                 rep.finding('C18 %s touches %s' % (name, stage_name[i]),
                             'Keyboard::%s %s modifies the %s, a stage it does not feed (%s); %s' % (
@@ -204,7 +248,7 @@ def check_keyboard(ctx, rep, tier):
                 bad = 'the Keyboard value could not be followed up to the call at %s' % c['sp']
                 break
             for i in (i_ps2, i_ss, i_ed):
-                if hb[3][i] != cur[i]:
+                if norm(i, hb[3][i]) != norm(i, cur[i]):
                     bad = 'the %s is written directly before the stage call at %s' % (stage_name[i], c['sp'])
                     break
             if bad:
@@ -217,7 +261,7 @@ def check_keyboard(ctx, rep, tier):
         if bad is None:
             fin = lf.cells[('H', 'self')]
             for i in (i_ps2, i_ss, i_ed):
-                if fin[3][i] != cur[i]:
+                if norm(i, fin[3][i]) != norm(i, cur[i]):
                     bad = 'the %s is written directly after the last stage call' % stage_name[i]
                     break
         rep.ob('stages change only through their own calls', 1, 0 if bad else 1)
